@@ -13,17 +13,29 @@ ID = "C18"
 LEVEL = "exploration"
 RULE = (
     "Hypothesis: recursive JSON values under string-keyed dicts (None, bools, ints of any size, finite floats, "
-    "full-Unicode text incl. astral and control code points, lists, nested dicts) and the real payload shape "
-    "{'code': text, 'options': {...}} incl. payloads of tens of kilobytes; oracle: decode(encode(d)) == d, encoded matches [A-Za-z0-9_-]*, and an "
+    "full-Unicode text incl. astral, control and lone surrogate code points, lists, nested dicts) and the real payload shape "
+    "{'code': text, 'options': {...}} incl. payloads of tens to hundreds of kilobytes; oracle: decode(encode(d)) == d, encoded matches [A-Za-z0-9_-]*, and an "
     "independent urlsafe-base64/zlib/json decoder agrees. Non-trivial: the encoded text contains '-' or '_' or "
     "its length is not a multiple of 4 (padding had to be restored); distinct by SHA-1 of the value."
 )
 ASSUMPTIONS = [
     "dictionary keys are strings and floats are finite (JSON object keys are strings; NaN != NaN)",
     "tuples are not generated (JSON turns them into lists by definition)",
-    "lone surrogate code points are not generated: they are not Unicode text, and JSON itself merges an adjacent "
-    "high+low pair into one astral character (observed while building the check; not a defect of the code)",
+    "lone surrogate code points (what a text cut in the middle of an emoji holds in Python) are generated, but never a "
+    "high surrogate directly followed by a low one: JSON itself merges that pair into one astral character "
+    "(json.loads(json.dumps(s)) != s already; observed while building the check, not a defect of the code)",
 ]
+_PAIR = re.compile("([\ud800-\udbff])(?=[\udc00-\udfff])")
+
+
+def no_pairs(s):
+    """keep lone surrogates lone: separate a high surrogate from a directly following low one"""
+    return _PAIR.sub(lambda m: m.group(1) + "-", s)
+
+
+def surrogate_text(max_size=30):
+    return st.text(alphabet=st.one_of(st.characters(min_codepoint=0xD800, max_codepoint=0xDFFF), st.characters(max_codepoint=0x2FF),
+                                      st.sampled_from(["\U0001f600", "\ud83d", "\ude00", "a", "\n"])), max_size=max_size).map(no_pairs)
 
 URLSAFE = re.compile(r"[A-Za-z0-9_-]*")
 
@@ -40,7 +52,8 @@ def json_values():
         st.integers(min_value=-(2**70), max_value=2**70),
         st.floats(allow_nan=False, allow_infinity=False),
         st.text(),
-        st.text(alphabet=st.characters(min_codepoint=0, max_codepoint=0x10FFFF), max_size=40),
+        st.text(alphabet=st.characters(min_codepoint=0, max_codepoint=0x10FFFF), max_size=40).map(no_pairs),
+        surrogate_text(),
     )
     return st.recursive(
         leaves,
@@ -61,6 +74,8 @@ def payloads():
         st.text(max_size=400),
         st.lists(st.sampled_from(PROGRAM_BITS), max_size=30).map("".join),
         st.binary(max_size=300).map(lambda b: b.decode("latin-1")),
+        # a source cut in the middle of a character outside the BMP
+        st.tuples(st.lists(st.sampled_from(PROGRAM_BITS), max_size=6).map("".join), surrogate_text(8)).map(lambda t: t[0] + t[1]),
     )
     opts = st.dictionaries(st.sampled_from(repo.OPTION_NAMES + ["unknown", ""]), st.one_of(st.booleans(), st.none(), st.integers()), max_size=8)
     return st.fixed_dictionaries({"code": code, "options": opts})
@@ -73,8 +88,11 @@ def cases():
         # size-stratified: byte strings of every length so that len(encoded) % 4 takes each value
         st.integers(0, 200).flatmap(lambda n: st.fixed_dictionaries({"k": st.text(alphabet="abcXYZ019 ~?>", min_size=n, max_size=n)})),
         # large payloads (long programs: tens of kilobytes of JSON), built from a drawn piece and a repeat count
-        st.tuples(st.text(min_size=20, max_size=120), st.integers(1, 600), st.text(max_size=40)).map(
+        st.tuples(st.text(min_size=20, max_size=120).map(no_pairs), st.integers(1, 600), st.text(max_size=40).map(no_pairs)).map(
             lambda t: {"code": (t[0] + "\n") * t[1] + t[2], "options": {"compact": True}}),
+        # very large payloads (a main file plus many libraries: 64 KB - 400 KB of JSON)
+        st.tuples(st.text(min_size=40, max_size=160).map(no_pairs), st.integers(700, 2500)).map(
+            lambda t: {"code": {"": (t[0] + "\n") * t[1], "lib": t[0]}, "options": {}}),
     )
     return top
 
@@ -121,7 +139,9 @@ def check_one(d, stats=None):
         if nt:
             stats.nontrivial.add(sha(d)[:16])
         n = len(json.dumps(d))
-        stats.classes["json-size:" + ("<1k" if n < 1000 else "1k-16k" if n < 16384 else ">=16k")] += 1
+        stats.classes["json-size:" + ("<1k" if n < 1000 else "1k-16k" if n < 16384 else "16k-64k" if n < 65536 else ">=64k")] += 1
+        if re.search("[\ud800-\udfff]", json.dumps(d, ensure_ascii=False)):
+            stats.classes["with-lone-surrogate"] += 1
         if n < 300:
             stats.sample({"value": d, "encoded": enc}, limit=3)
 
